@@ -139,6 +139,9 @@ func LoadProgram(repoDir string, patterns []string, overlay map[string][]byte, l
 			p.addFile(cf)
 		}
 	}
+	for _, k := range p.SortedContractKeys() {
+		p.resolveImplements(p.Contracts[k])
+	}
 	return p, nil
 }
 
@@ -178,6 +181,60 @@ func (p *Program) addFile(cf *ContractFile) {
 	p.Axioms = append(p.Axioms, cf.Axioms...)
 }
 
+// resolveImplements merges the interface contracts a method contract declares to implement into it: the interface's
+// lets and requires come first (they may be relied on), its ensures are added as obligations of the body, and its modifies
+// clause is the method's frame unless the method states its own.
+func (p *Program) resolveImplements(c *Contract) {
+	if c.implDone || len(c.Implements) == 0 {
+		return
+	}
+	c.implDone = true
+	for _, name := range c.Implements {
+		ic, ok := p.Contracts[c.Pkg+"::"+name]
+		if !ok {
+			for k, cand := range p.Contracts {
+				if strings.HasSuffix(k, "::"+name) {
+					ic, ok = cand, true
+				}
+			}
+		}
+		if !ok {
+			c.Ensures = append(c.Ensures, &Clause{Label: "implements", Src: "implements " + name + ": no such interface contract", E: &EIdent{Name: "no_such_interface_contract"}, File: c.File, Line: c.Line})
+			continue
+		}
+		own := map[string]bool{}
+		for _, l := range c.Lets {
+			own[l.Name] = true
+		}
+		var lets []LetDef
+		for _, l := range ic.Lets {
+			if !own[l.Name] {
+				lets = append(lets, l)
+			}
+		}
+		c.Lets = append(lets, c.Lets...)
+		var reqs []*Clause
+		for _, r := range ic.Requires {
+			cp := *r
+			cp.FromIface = true
+			reqs = append(reqs, &cp)
+		}
+		c.Requires = append(reqs, c.Requires...)
+		for _, e := range ic.Ensures {
+			cp := *e
+			cp.FromIface = true
+			if cp.Label != "" {
+				cp.Label = "iface." + cp.Label
+			}
+			c.Ensures = append(c.Ensures, &cp)
+		}
+		if !c.ModSet && ic.ModSet {
+			c.ModSet = true
+			c.Modifies = append(c.Modifies, ic.Modifies...)
+		}
+	}
+}
+
 // ContractFor returns the contract attached to fn, if any.
 func (p *Program) ContractFor(fn *ssa.Function) *Contract {
 	if fn == nil {
@@ -185,6 +242,7 @@ func (p *Program) ContractFor(fn *ssa.Function) *Contract {
 	}
 	if fn.Pkg != nil {
 		if c, ok := p.Contracts[funcKey(fn)]; ok {
+			p.resolveImplements(c)
 			return c
 		}
 		return nil
